@@ -809,7 +809,7 @@ Lemma execute_ast_nb (cfg cfg' : config F) :
   cf_types cfg' = cf_types cfg -> cf_type_conv cfg' = cf_type_conv cfg -> cf_rates cfg' = cf_rates cfg ->
   forall a vs, execute_ast no_bexec cfg' vs a = execute_ast no_bexec cfg vs a.
 Proof.
-  intros Ht Hc Hr. induction a as [| | | |l IHl op r IHr|op e IHe|name e IHe| |]; intro vs; cbn [execute_ast]; try reflexivity.
+  intros Ht Hc Hr. induction a as [| | | |l IHl op r IHr|op e IHe|name ntoks e IHe| |]; intro vs; cbn [execute_ast]; try reflexivity.
   - rewrite IHl. destruct (execute_ast no_bexec cfg vs l) as [[[cl|m] vs1]|site]; cbn [bind]; try reflexivity.
     rewrite IHr. destruct (execute_ast no_bexec cfg vs1 r) as [[[cr|m] vs2]|site]; cbn [bind]; try reflexivity.
     assert (E : calculate_item no_bexec cfg' op cl cr = calculate_item no_bexec cfg op cl cr).
